@@ -44,6 +44,8 @@ CHECKS = {
          "after every step of every enumerated history numpy's global generator state is bit-identical, every keyed call equals its clean-state result, and user draws equal those of the history without cola calls; the average of the Hutchinson estimate over the whole sign cube must equal the true diagonal exactly for all offsets"),
  "C19": ("complete lattice {structured operators with n ~ 1000-1300 built from small factors} x {64 entry points with the algorithm argument omitted / Auto / explicit}; points are selected by reading the live rule table; allocation monitor (tracemalloc) on every execution",
          "every lattice point with a structural rule is executed under tracemalloc; the peak additional memory must stay below 64 x (operand + dense sizes of the factors the rules may materialise) + 64 KiB, a factor 10-100 below the full matrix"),
+ "C18": ("(a) operation sequences on a pool of 20 operators and caller-owned arrays with results flowing forward: all of length 1 (also read-only), all flow-forward / same-operator / two-operator sequences of length 2, (thorough) all consuming chains of length 3; (b) all ordered first-instantiation histories of <=2 (<=3) constructor events, each in a child forked from a process that never built an operator",
+         "after every step of every enumerated sequence the bytes / flags / strides of every caller-owned array and the dense form and annotations of every touched operator are compared with their initial values, every executed call is repeated and must be bit-identical, module-level defaults are compared; for every instantiation history the flatten / unflatten / leaf-substitution probe of 22 operator kinds must equal the expected facts"),
 }
 PENDING = {}
 props = [json.loads(l) for l in open(os.path.join(ROOT, "properties.jsonl"))]
